@@ -63,7 +63,6 @@ func extractFmt(repo string) (map[string]string, error) {
 			return nil, err
 		}
 		def("crypto"+fn+"Skeleton", "List String", goast.LeanStringList(goast.Skeleton(fd)))
-		def("crypto"+fn+"Slices", "List String", goast.LeanStringList(fmtSliceExprs(fd)))
 	}
 	ae, err := goast.Parse(filepath.Join(app, "appencryption.go"))
 	if err != nil {
@@ -283,33 +282,6 @@ func fmtReturnExprs(fd *ast.FuncDecl) []string {
 		if r, ok := n.(*ast.ReturnStmt); ok {
 			for _, x := range r.Results {
 				out = append(out, goast.ExprString(x))
-			}
-		}
-		return true
-	})
-	return out
-}
-
-// fmtSliceExprs: every slice expression and make() call of a function, in source order — the byte
-// layout of Encrypt/Decrypt lives in them (cipherAndNonce[noncePos:], data[:noncePos], …).
-func fmtSliceExprs(fd *ast.FuncDecl) []string {
-	var out []string
-	ast.Inspect(fd.Body, func(n ast.Node) bool {
-		switch t := n.(type) {
-		case *ast.SliceExpr:
-			out = append(out, goast.ExprString(t))
-		case *ast.AssignStmt:
-			if len(t.Lhs) == 1 && len(t.Rhs) == 1 {
-				if id, ok := t.Lhs[0].(*ast.Ident); ok && t.Tok == token.DEFINE {
-					switch t.Rhs[0].(type) {
-					case *ast.BinaryExpr:
-						out = append(out, id.Name+":="+goast.ExprString(t.Rhs[0]))
-					case *ast.CallExpr:
-						if goast.ExprString(t.Rhs[0].(*ast.CallExpr).Fun) == "make" {
-							out = append(out, id.Name+":="+goast.ExprString(t.Rhs[0]))
-						}
-					}
-				}
 			}
 		}
 		return true
